@@ -50,7 +50,9 @@ def build(cfg):
     from amaranth_soc.csr.event import EventMonitor
     try:
         emap = event.EventMap()
-        srcs = [event.Source(trigger=m, path=(f"e{i}",)) for i, m in enumerate(cfg["modes"])]
+        # (every second source comes from its signature, as a component port would: both routes must give the declared mode)
+        srcs = [event.Source(trigger=m, path=(f"e{i}",)) if i % 2 == 0 else event.Source.Signature(trigger=m).create(path=(f"e{i}",))
+                for i, m in enumerate(cfg["modes"])]
         for s in srcs:
             emap.add(s)
         mon = EventMonitor(emap, trigger="level", data_width=cfg["dw"], alignment=cfg["align"])
@@ -139,7 +141,7 @@ def check_config(ctx, cfg):
         bit = lambda v: z3.Extract(k, k, v)
         # the trigger as the PROPERTY defines it, from the source's input now and one cycle earlier
         cur, prv = f0.inp(s.i), fp.inp(s.i)
-        trg = {"level": cur, "rise": ~prv & cur, "fall": prv & ~cur}[s.trigger.value]
+        trg = {"level": cur, "rise": ~prv & cur, "fall": prv & ~cur}[cfg["modes"][srcs.index(s)]]
         conj.append(bit(pe1) == z3.If(trg == 1, one, z3.If(z3.And(pw_stb == 1, bit(pw_data) == 1), zero, bit(pe0))))
     ctx.prove("pending_w1c", z3.And(*conj), frames=[fp, f0, f1])
     ctx.prove("irq_line", f0.val(mon.src.i) == z3.If((en0 & pe0) != 0, one, zero), frames=[f0])
@@ -151,7 +153,7 @@ def check_config(ctx, cfg):
     for s in srcs:
         k = emap.index(s)
         cur = fr.inp(s.i)
-        trg0 = {"level": cur, "rise": cur, "fall": zero}[s.trigger.value]            # previous input = 0
+        trg0 = {"level": cur, "rise": cur, "fall": zero}[cfg["modes"][srcs.index(s)]]            # previous input = 0
         conj_r.append(z3.Extract(k, k, fr1.val(pe["elem"].r_data)) == trg0)
     ctx.prove("reset_values", z3.And(*conj_r), [fr.val(pe["elem"].w_stb) == 0], frames=[fr, fr1])
     ctx.canary("write_zero_clears", z3.Implies(z3.And(pw_stb == 1, pw_data == 0, *[f0.val(s.trg) == 0 for s in srcs]), pe1 == 0))
